@@ -93,7 +93,25 @@ func genNav(r *RNG) *nCase {
 			if !contains(nc.Methods[ci].Callees, callee) {
 				nc.Methods[ci].Callees = append(nc.Methods[ci].Callees, callee)
 			}
-			switch r.Intn(8) {
+			switch r.Intn(12) {
+			case 8:
+				// the call on the right of `==`, whose left side is a plain name
+				site(l.idx, cname, "Calc", "if-condition-call-right-of-==")
+				emit("    if c == " + callee + "(1)")
+				emit("      c")
+				emit("    end")
+			case 9:
+				site(l.idx, cname, "Calc", "modifier-if-condition")
+				emit("    v = 1 if c == " + callee + "(2)")
+			case 10:
+				// two calls of one method on one row: an argument of itself
+				site(l.idx, cname, "Calc", "two-on-a-row-nested")
+				site(l.idx, cname, "Calc", "two-on-a-row-nested")
+				emit("    " + callee + "(" + callee + "(2))")
+			case 11:
+				site(l.idx, cname, "Calc", "two-on-a-row-operands")
+				site(l.idx, cname, "Calc", "two-on-a-row-operands")
+				emit("    w = " + callee + "(3) + " + callee + "(4)")
 			case 0:
 				site(l.idx, cname, "Calc", "statement")
 				emit("    " + callee + "(c)")
